@@ -414,7 +414,7 @@ func ciscoLine(line string, i int) {
 			}
 		case cmd == "write memory":
 			if nook {
-				send("Building configuration...\n%Error opening nvram:/startup-config (Device or resource busy)\n")
+				send("Building configuration...\n%Error writing nvram:/startup-config (I/O error)\n")
 			} else {
 				saved = true
 				send("Building configuration...\n[OK]\n")
